@@ -44,7 +44,9 @@ TraceNext ==
        [] e.op \in {"Ack", "ExtAck"} ->
             /\ wire' = wire \ Set(e.ids) /\ dead' = dead \cup Set(e.ids)
             /\ UNCHANGED <<fcM, fcB, size>>
-       [] e.op = "Nack" ->
+       \* Nack: the client gave the message back; Expire: its retention ran out while outstanding -
+       \* either way it no longer counts against the limits ("acknowledged, nacked or expired")
+       [] e.op \in {"Nack", "Expire"} ->
             /\ wire' = wire \ Set(e.ids) /\ UNCHANGED <<fcM, fcB, size, dead>>
        [] e.op = "Quiet" ->
             /\ LET stalled == {m \in Set(e.avail) \ wire : Fits(size, wire, m, fcM, fcB)} IN
